@@ -202,4 +202,25 @@ impl Prop for C14 {
         }
         Ok(Input { s1: kv.get_b("s1")?, action: kv.get_u("action")? as u8, s2: kv.get_b("s2")?, cap })
     }
+
+    fn exhaustive_desc(tier: Tier) -> String {
+        let (l1, l2) = tier.pick((3, 2), (3, 3));
+        format!("every pair (s1, s2) of token sequences over the 13-token alphabet of C02 with |s1| <= {} and |s2| <= {} ({} pairs), the boundary action cycling through cut-after-event / reset / finalize, buffers Vec and ArrayBuf<8>", l1, l2, small_seq_total(l1) * small_seq_total(l2))
+    }
+
+    fn exhaustive(tier: Tier, shard: usize, nshards: usize, f: &mut dyn FnMut(&Input) -> bool) {
+        let (l1, l2) = tier.pick((3, 2), (3, 3));
+        let alpha = small_alphabet();
+        let (t1, t2) = (small_seq_total(l1), small_seq_total(l2));
+        let mut idx = shard as u64;
+        while idx < t1 * t2 {
+            let s1 = small_seq_bytes(&alpha, l1, idx / t2);
+            let s2 = small_seq_bytes(&alpha, l2, idx % t2);
+            let cap = if idx % 2 == 0 { None } else { Some(8) };
+            if !f(&Input { s1, action: (idx % 3) as u8, s2, cap }) {
+                return;
+            }
+            idx += nshards as u64;
+        }
+    }
 }
